@@ -291,9 +291,9 @@ def mkNetDrmsWith (memo : Memo α) (n : Nat) (M0 K0 : NMat α) (bset0 sub0 : Lis
   -- reorder=True: b-set first, uset rows by rank, bsubset as a permuted mask
   let pvl := pvList bset0 n false
   let rk := usetRank bset0
-  let M1 : NMat α := if o.reorder then (memo n n (reorder M0 (fun i => pvl.getD i 0))).get else M0
-  let K1 : NMat α := if o.reorder then (memo n n (reorder K0 (fun i => pvl.getD i 0))).get else K0
-  let u1 : NMat α := if o.reorder then (memo nb 3 (fun i j => u0 (rk.getD i 0) j)).get else u0
+  let M1 : NMat α := (memo n n (if o.reorder then reorder M0 (fun i => pvl.getD i 0) else M0)).get
+  let K1 : NMat α := (memo n n (if o.reorder then reorder K0 (fun i => pvl.getD i 0) else K0)).get
+  let u1 : NMat α := (memo nb 3 (if o.reorder then fun i j => u0 (rk.getD i 0) j else u0)).get
   let gk (g : Nat) : Nat := if o.reorder then rk.getD (6 * g) 0 / 6 else g
   let isCyl1 : Nat → Bool := fun g => isCyl0 (gk g)
   let isSph1 : Nat → Bool := fun g => isSph0 (gk g)
@@ -317,16 +317,16 @@ def mkNetDrmsWith (memo : Memo α) (n : Nat) (M0 K0 : NMat α) (bset0 sub0 : Lis
   let lc : α := match o.conv with | some c => c.1 | none => 1
   let mc : α := match o.conv with | some c => c.2 | none => 1
   let isConv := o.conv.isSome
-  let ifltmaSc : NMat α := if isConv then (memo 6 n (cbconvert ifltmaSc0 bset lc mc true)).get else ifltmaSc0
-  let ifltmdSc : NMat α := if isConv then (memo 6 nb (cbconvert ifltmdSc0 (List.range nb) lc mc true)).get else ifltmdSc0
-  let M2 : NMat α := if isConv then (memo n n (cbconvert M1 bset lc mc false)).get else M1
-  let K2 : NMat α := if isConv then (memo n n (cbconvert K1 bset lc mc false)).get else K1
-  let u2 : NMat α := if isConv then (memo nb 3 (usetConvert u1 lc)).get else u1
+  let ifltmaSc : NMat α := (memo 6 n (if isConv then cbconvert ifltmaSc0 bset lc mc true else ifltmaSc0)).get
+  let ifltmdSc : NMat α := (memo 6 nb (if isConv then cbconvert ifltmdSc0 (List.range nb) lc mc true else ifltmdSc0)).get
+  let M2 : NMat α := (memo n n (if isConv then cbconvert M1 bset lc mc false else M1)).get
+  let K2 : NMat α := (memo n n (if isConv then cbconvert K1 bset lc mc false else K1)).get
+  let u2 : NMat α := (memo nb 3 (if isConv then usetConvert u1 lc else u1)).get
   let ref : V3 α := if isConv then ⟨ref0.x * lc, ref0.y * lc, ref0.z * lc⟩ else ref0
-  let rb2 : NMat α := if isConv then (memo nbi 6 (rbgeomUset (rowsOf sub u2) cylIf sphIf ref)).get else rb
-  let rbAll2 : NMat α := if isConv then (memo nb 6 (rbgeomUset u2 isCyl1 isSph1 ref)).get else rbAll
-  let ifltmaLv0 : NMat α := if isConv then (memo 6 n (netDrm nbi rb2 M2 bi)).get else ifltmaSc
-  let ifltmdLv0 : NMat α := if isConv then (memo 6 nb (netDrmD nbi rb2 K2 bi bs)).get else ifltmdSc
+  let rb2 : NMat α := (memo nbi 6 (if isConv then rbgeomUset (rowsOf sub u2) cylIf sphIf ref else rb)).get
+  let rbAll2 : NMat α := (memo nb 6 (if isConv then rbgeomUset u2 isCyl1 isSph1 ref else rbAll)).get
+  let ifltmaLv0 : NMat α := (memo 6 n (if isConv then netDrm nbi rb2 M2 bi else ifltmaSc)).get
+  let ifltmdLv0 : NMat α := (memo 6 nb (if isConv then netDrmD nbi rb2 K2 bi bs else ifltmdSc)).get
   -- RBE3 for the net interface acceleration: dependent grid at `ref` (basic), independent DOF `code`
   let code := indepCode nbi o.rbe3Indep
   let irows := indepRows nbi code
